@@ -720,13 +720,13 @@ def _replay_real_cache(args, label):
 @obligation(
     "C09.cache_race",
     covers=("preemptions=1", "eviction-during-race"),
-    split={"pair": [(a, b) for a in range(2) for b in range(a, len(CACHE_OPS))], "r0": [False, True], "r1": [False, True]},
+    split={"pair": [(0, b) for b in range(len(CACHE_OPS))] + [(1, 1)], "r0": [False, True], "r1": [False, True]},
     tier_split={"thorough": {"pair": [(a, b) for a in range(len(CACHE_OPS)) for b in range(a, len(CACHE_OPS))], "r0": [False, True],
                              "r1": [False, True]}},
     tier_args={"quick": {"P": 1}, "thorough": {"P": 1}},
     bounds="two threads each performing one MemoryCache operation (all 36 unordered pairs of 8 operations, keys f#1/h1, f#1/h2 chosen per thread) from an "
            "ARBITRARY valid cache state over 2 keys (resident / has-value bits, sizes, budget: unbounded non-negative ints, new sizes "
-           "likewise); every schedule with at most 1 pre-emption (quick: the 15 pairs involving a put; thorough: all 36 pairs; two pre-emptions: C09.cache_race_p2) at statement granularity inside the cache methods: invariant afterwards, "
+           "likewise); every schedule with at most 1 pre-emption (quick: put-value against each of the 8 operations, and two memento-only puts; thorough: all 36 pairs; two pre-emptions: C09.cache_race_p2) at statement granularity inside the cache methods: invariant afterwards, "
            "only read_result's KeyError escapes, and final state and both return values equal those of one of the two sequential orders",
     variables="data: z0, z1, budget, na, nb (ints), s1, s2 (pre-emption steps); choice: r*, h*, ka, kb",
     stubs=("SizeOracle replaces MemoryCache._estimate_object_size", "CoopLock between generator twins"),
